@@ -721,6 +721,28 @@ func scenarioSwappedFiles() []string {
 	return lines
 }
 
+// C09: a request that sends a selecting field on several lines finds the fresh response stored for that very request
+func scenarioMultiLineHit() string {
+	dsn := registerConn(memcache.Open())
+	defer unregisterConn(dsn)
+	org := &scOrigin{vary: "Accept-Language", cc: "max-age=600"}
+	rt := httpcache.NewTransport(dsn, httpcache.WithUpstream(org))
+	u := "http://a.test/doc"
+	var bad []string
+	for _, h := range []http.Header{{"Accept-Language": {"en", "fr"}}, {"Accept-Language": {"", "de"}}, {"Accept-Language": {"en", "", "fr"}, "X-Other": {"1", "2"}}} {
+		r1 := scDo(rt, "GET", u, h)
+		r2 := scDo(rt, "GET", u, h)
+		if r2.status != "HIT" || r2.body != r1.body {
+			bad = append(bad, fmt.Sprintf("%q: first=%s second=%s", h["Accept-Language"], r1.status, r2.status))
+		}
+	}
+	v := "ok"
+	if len(bad) > 0 {
+		v = "BAD"
+	}
+	return fmt.Sprintf("SCENARIO prop=C09 code=C09:multi-line-request-not-served name=multi-line-hit | the same request twice, the stored response fresh: not_served=%q %s\n", strings.Join(bad, " ; "), v)
+}
+
 func TestScenarios(t *testing.T) {
 	out := os.Getenv("VERIF_OUT")
 	if out == "" {
@@ -733,6 +755,7 @@ func TestScenarios(t *testing.T) {
 	lines = append(lines, scenarioPlaintextInEncryptedDir()...)
 	lines = append(lines, scenarioSwappedFiles()...)
 	lines = append(lines, scenarioMultiLineSelecting())
+	lines = append(lines, scenarioMultiLineHit())
 	lines = append(lines, scenarioUnprintableSelecting())
 	lines = append(lines, scenarioErrorBody(false), scenarioErrorBody(true))
 	lines = append(lines, scenarioNonCanonicalRequestKeys())
